@@ -146,6 +146,8 @@ type Config struct {
 	TxPerBlock int
 	MaxSteps   int
 	MaxClock   time.Duration
+	// KeyOf makes node j use the key pair of node KeyOf[j] (hot standby with the same identity).
+	KeyOf map[int]int
 	// ValSchedule returns node ids forming the validator list for the given block index.
 	ValSchedule func(index uint32) []int
 	// Knobs of the scheduler.
@@ -235,7 +237,10 @@ type Node struct {
 	FailBlock    int                // number of upcoming ProcessBlock calls to fail (anti-MEV heights only)
 	RejectBlocks map[[2]uint32]bool // (height, view) whose block this node's verifier rejects
 	RejectFrom   map[uint16]bool    // payload-level verification fails for these validator indices
-	SignErr      bool
+	// RejectForgedBelow: payload-level verification fails for adversary-made payloads whose first
+	// hash byte is below this value (policy validity is a property of the payload, the same on every node)
+	RejectForgedBelow byte
+	SignErr           bool
 
 	Accepted []AcceptRec
 }
@@ -303,6 +308,9 @@ func NewCluster(cfg Config, mons ...Monitor) *Cluster {
 		k, p := NewKey(cfg.Seed, i)
 		c.Keys = append(c.Keys, k)
 		c.Pubs = append(c.Pubs, p)
+	}
+	for j, i := range cfg.KeyOf {
+		c.Keys[j], c.Pubs[j] = c.Keys[i], c.Pubs[i]
 	}
 	for i := 0; i < total; i++ {
 		n := &Node{ID: i, C: c, Key: c.Keys[i], Pub: c.Pubs[i], Pool: map[H]*Tx{}, Requested: map[H]bool{},
@@ -645,6 +653,9 @@ func (n *Node) NewInstance() error {
 
 func (n *Node) verifyPayload(p dbft.ConsensusPayload[H]) error {
 	ok := !n.RejectFrom[p.ValidatorIndex()]
+	if q := p.(*Payload); q.Forged && n.RejectForgedBelow > 0 && q.Hash()[0] < n.RejectForgedBelow {
+		ok = false
+	}
 	n.C.emit(&Event{Node: n.ID, Kind: KVerifyPayload, P: p.(*Payload), OK: ok})
 	if !ok {
 		return errors.New("payload rejected by policy")
